@@ -241,6 +241,59 @@ CHECKS["C02"] = {'design_ref': 'DESIGN.md section 6 C02',
          'followed by a poll at the same clock emits ST_DATA / ST_FIN), c02_eof_wakes, '
          'c02_zero_window_waker, c02_shutdown_wakes.'}
 
+CHECKS["C17"] = {
+  "design_ref": "DESIGN.md section 6 C17",
+  "technique": "Coq proof (case analysis / symbolic evaluation of the model of VirtualSocket::poll, Hoare-style frame lemmas for "
+               "every function of a poll) + differential correspondence model vs impl + extracted predicates on impl traces",
+  "text": "Model: Conn/VSock.v (VirtualSocket::poll and all it calls), any congestion controller. Theorems (Props/C17.v): "
+          "c17_transition_table - the whole (state, packet type) table of process_incoming_message, one conjunct per arm of the Rust "
+          "match with its guard (20 rows), c17_table_drop_unchanged (a dropped packet changes nothing, not even its ack is processed), "
+          "c17_table_keeps_our_fin; c17_synack - complete case analysis of maybe_send_syn_ack (first SYN-ACK = ST_STATE with seq = isn, "
+          "ack = remote SYN seq, state SynAckSent 1, resend timer now+200 ms; nothing before the timer; one more at expiry with k < max; "
+          "error at k = max; transport pending / send error cases), c17_synack_exhausted_poll (the whole poll returns "
+          "MaxSynAckRetransmissionsReached), c17_body_rest_frame (nothing after maybe_send_syn_ack touches counter or timer); "
+          "c17_own_fin - maybe_send_fin emits at most one datagram, a FIN carrying the number recorded in FinWait1/LastAck, only when it "
+          "directly follows last_sent_seq_nr, c17_own_fin_sends (and then it does), c17_transition (the number is seq_nr), "
+          "c17_should_close_guard, c17_fin_after_all_data - FIN only after every accepted byte was segmented and every segment sent, "
+          "UNDER the hypothesis split_fresh (the last split_tx_queue_into_segments ran to its end); c17_peer_fin_out_of_sequence (no "
+          "change at all), c17_peer_fin (in sequence from Established: consumed, immediate ACK forced, own FIN numbered seq_nr, LastAck); "
+          "c17_reset - a RESET at the head of the inbox past the handshake makes the same poll return StResetReceived with NOTHING "
+          "emitted (no FIN, no reply), both halves closed, error queued; c17_reset_message_acks_fin / c17_reset_ok_recv_loop - the "
+          "RESET acknowledging our FIN in LastAck closes without error, the rest of the poll still runs; c17_poll_frame. "
+          "REFUTED (witnesses by vm_compute, both reproduced on the real code): c17_fin_overtakes_data_refuted (D10: FIN sent with 100 "
+          "written bytes never segmented, early return of the segmentation on an unexpired MTU probe leaves unsegmented_data stale) and "
+          "c17_fin_number_collides_with_data_refuted (D13: after an RTO rewound last_sent_seq_nr, send_data! lowers seq_nr and the FIN "
+          "takes the number of an outstanding data segment). Predicates evaluated on every implementation trace: c17_synack_ok, "
+          "c17_fin_after_data_ok, c17_fin_number_step_ok, c17_fin_seq_ok, c17_peer_fin_ok, c17_reset_ok, c17_reset_trace_ok.",
+  "note": "Trusted: as C16, plus the connection-level correspondence (vsock component). No axioms. PARTIAL: the step/trace "
+          "predicates are proved at function level (the theorems above are about maybe_send_syn_ack, maybe_send_fin, state_table, "
+          "process_incoming_message, recv_loop and about whole polls for the RESET / exhausted SYN-ACK cases); the theorem 'every model "
+          "step satisfies predicate P' (vstep-level, with invariant) is NOT proved for any of the seven predicates - they are "
+          "monitored on implementation traces only. split_fresh is not an invariant (D10). The FIN-numbering clause 'the number "
+          "following the last data segment' is false of the code (D13). FIN retransmission on timeout is covered by the correspondence, "
+          "not by a theorem.",
+}
+
+CHECKS["C03"] = {
+  "design_ref": "DESIGN.md section 6 C03",
+  "technique": "Coq proof (component models + inversion of the poll's continuation structure) + differential correspondence",
+  "text": "Ok from flush / shutdown implies the ring is empty (c03_flush_ok_ring_empty, c03_shutdown_ok_ring_empty: every accepted byte was "
+          "acknowledged and removed). c03_poll_ready_died - a poll returns Ready only through just_before_death (structural inversion of "
+          "poll_body / poll_loop, every state); c03_death_resolves / c03_ok_death_resolves / c03_drop_resolves - after just_before_death "
+          "(and after Drop, also on cancellation) both halves are marked closed, the error is queued, every registered application waker "
+          "was fired and none is registered, and in terms of the component models: every later read with a non-empty buffer returns "
+          "bytes, EOF or an error, never Pending (c03_read_after_close_never_pending, with the fuel argument of the read loop), "
+          "poll_write returns 'socket closed' (after at most one self-woken yield), poll_flush / poll_shutdown return an error while "
+          "bytes are unacknowledged and Ok when none are; c03_failure_bounded_partial / c03_max_retransmissions_error - an RTO expiry on "
+          "a segment already retransmitted max times fails the connection; c03_eof_after_all_partial - a FIN is handed to the reader "
+          "side only if in sequence in the data states. Predicate c03_after_death_ok (Ready poll => both halves closed, wakers fired; "
+          "no call parks on a closed half) evaluated on every implementation trace; rx and tx component correspondences included.",
+  "note": "Trusted: as C16/C04/C19. No axioms. PARTIAL: (g) the reader-level statement 'EOF only after every earlier byte' relies on "
+          "C04's stream theorems and is not restated end to end; (h) inactivity expiry is not a theorem (it is the `if` of poll_body); "
+          "the vstep-level theorem for c03_after_death_ok is not proved (function-level theorems + monitoring); the vsock trace stops "
+          "at the Ready poll, so the after-death clause of the trace predicate is vacuous there and is carried by the component theorems.",
+}
+
 ALL = ["C%02d" % i for i in range(1, 20)]
 NOT_APPLICABLE = {p: "check not built yet at this commit (planned: DESIGN.md section 6); not claimed"
                   for p in ALL if p not in CHECKS}
